@@ -1,6 +1,7 @@
 CONSTANTS
   Kernel = "sinc4"
   Classes <- Sinc4Classes
+  SumInSpec = FALSE
   Export = TRUE
 INIT Init
 NEXT Next
